@@ -24,8 +24,21 @@
    "superfluous") Judge allows acceptance as well as rejection - but clauses
    (a)-(c) are demanded of *every* accepted outcome, on the resulting values.
 
-   Numbers are carried in halves (n = 2 * value) so that 1.5 is the integer 3;
-   TLC has no reals and the JSON traces carry no floats.
+   Numbers are carried as integers in *units*: every field spec names its unit f.u and
+   the number n of that field stands for n / f.u (TLC has no reals and the JSON traces
+   carry no floats).  Most families use halves (u = 2, 1.5 is the integer 3); the decimal
+   families use twentieths (u = 20: 0.1 = 2, 0.25 = 5, 0.7 = 14), which contain decimals
+   that no binary floating-point format holds exactly.  The clauses compare the numbers
+   *as supplied* (exact rationals): the declared range binds the number in the document
+   or parameter, not what is left of it after rounding into the field's kind.  A float
+   field "holds" a supplied number when it holds the value of its kind nearest to it.
+
+   Parameter maps: the form and header sources are multimaps (name |-> list of texts).
+   The ordinary value classes are lists of exactly one text; "novals" is a key present
+   with an empty list (what r.Header[k] = r.Header[k][:0] leaves behind), "num2"/"str2"
+   a key with two texts.  Whether a key without values counts as supplied, and which of
+   two values a scalar field takes, the statement does not say: either verdict, but no
+   panic, and (a)-(d) bind whatever is accepted.
 
    The only real state of the subsystem is its caches (optionsCache keyed by the
    tag text, cacheKeys, defaultCache, structRequiredCache keyed by type): `seen`
@@ -61,6 +74,10 @@ VStr(s)    == V("str", 0, s)          \* a word
 VBool(b)   == V("bool", b, "")        \* b in {0,1}
 VNil       == V("nil", 0, "")         \* result only: nil pointer
 VList(c, s) == V("list", c, s)        \* a list of c scalars, s = their texts joined by ","
+VNoVals    == V("novals", 0, "")      \* multimap sources: the key is present, its list of values is empty
+VNum2(n)   == V("num2", n, "")        \* multimap sources: two values, the numbers n and n + 1 (n + f.u units)
+VStr2(s)   == V("str2", 0, s)         \* multimap sources: two values, the words s and Second
+Second     == "z"
 
 SeqSet(s) == {s[i] : i \in DOMAIN s}
 
@@ -69,6 +86,7 @@ ConfSources == {"conf", "confyaml", "conftoml"}   \* core/conf: keys are matched
 MapSources  == {"map"}
 StrSources  == {"form", "formpost", "path", "header"}
 FormSources == {"form", "formpost"}    \* httpx.GetFormValues drops empty values
+MultiSources == {"form", "formpost", "header"}   \* name |-> *list* of texts (url.Values, http.Header)
 
 IntKinds     == {"int", "int8", "int16", "int32", "int64", "uint", "uint8", "uint16", "uint32", "uint64"}
 UnsignedKinds == {"uint", "uint8", "uint16", "uint32", "uint64"}
@@ -82,6 +100,9 @@ HasMax(k) == k \in {"int8", "int16", "uint8", "uint16"}
 MaxH(k) == CASE k = "int8" -> 254 [] k = "int16" -> 65534 [] k = "uint8" -> 510 [] k = "uint16" -> 131070 [] OTHER -> 0
 HasMin(k) == k \in UnsignedKinds \cup {"int8", "int16"}
 MinH(k) == CASE k = "int8" -> 0 - 256 [] k = "int16" -> 0 - 65536 [] OTHER -> 0
+\* the same ends in the units of field f
+MaxU(f) == (MaxH(f.k) \div 2) * f.u
+MinU(f) == (MinH(f.k) \div 2) * f.u
 
 NoVec == [src |-> "none"]
 NoRes == [acc |-> FALSE, pan |-> FALSE, out |-> <<>>, mk |-> <<>>]
@@ -89,17 +110,19 @@ NoRes == [acc |-> FALSE, pan |-> FALSE, out |-> <<>>, mk |-> <<>>]
 \* ------------------------------------------------------------------ supplied?
 \* "supplied" is unambiguous for a present non-null value and for a missing key.
 \* null, and an empty string in a form (dropped by GetFormValues), are ambiguous:
+\* and a key of a multimap whose list of values is empty ("novals") are ambiguous:
 \* the statement does not say whether they count, so they are neither
 \* "definitely supplied" nor "definitely absent".
-Ambiguous(src, x) == x.t = "null" \/ (src \in FormSources /\ x.t = "str" /\ x.s = "")
+Ambiguous(src, x) == x.t = "null" \/ x.t = "novals" \/ (src \in FormSources /\ x.t = "str" /\ x.s = "")
 DefAbsentV(x)     == x.t = "absent"
 DefSuppliedV(src, x) == ~DefAbsentV(x) /\ ~Ambiguous(src, x)
 
 \* by key name, for optional=dep / optional=!dep (the key may be an extra key of
 \* the input that no field of the type binds)
+\* (v.xv[j] is the value the extra key v.xk[j] carries)
 DefSupplied(v, nm) ==
   \/ \E i \in DOMAIN v.f : v.f[i].nm = nm /\ DefSuppliedV(v.src, v.in[i])
-  \/ nm \in SeqSet(v.xk)
+  \/ \E j \in DOMAIN v.xk : v.xk[j] = nm /\ DefSuppliedV(v.src, v.xv[j])
 DefAbsent(v, nm) ==
   /\ \A i \in DOMAIN v.f : v.f[i].nm = nm => DefAbsentV(v.in[i])
   /\ nm \notin SeqSet(v.xk)
@@ -127,9 +150,9 @@ ValInOptions(f, r) ==
 
 \* "correctly typed" for the source the value arrives through
 Fits(f, n) ==
-  f.k \in IntKinds => /\ n % 2 = 0
-                      /\ HasMin(f.k) => n >= MinH(f.k)
-                      /\ HasMax(f.k) => n <= MaxH(f.k)
+  f.k \in IntKinds => /\ n % f.u = 0
+                      /\ HasMin(f.k) => n >= MinU(f)
+                      /\ HasMax(f.k) => n <= MaxU(f)
 WellTyped(src, f, x) ==
   CASE f.k \in NumericKinds ->
          /\ Fits(f, x.n)
@@ -184,6 +207,10 @@ ValueHolds(v, i, r) ==
   \* kind cannot hold (too wide for 8/16 bits, negative for unsigned, fractional for an
   \* integer kind) can therefore not be accepted - no wrap-around, no rounding
   ELSE IF f.k \in NumericKinds /\ x.t \in {"num", "numstr"} THEN r = VNum(x.n)
+  \* two values for one scalar: the statement does not say which one is taken, but the target
+  \* holds one of the supplied ones (and (b), (c) bind it)
+  ELSE IF f.k \in NumericKinds /\ x.t = "num2" THEN r \in {VNum(x.n), VNum(x.n + f.u)}
+  ELSE IF f.k = "string" /\ x.t = "str2" THEN r \in {VStr(x.s), VStr(Second)}
   ELSE TRUE   \* another wrongly typed value that was nevertheless taken: only (b),(c) bind
 
 \* (e) the input meets every declared constraint with correctly typed values
